@@ -189,7 +189,7 @@ def machine_spec(draw, profile="general", tier="quick"):
         if draw(st.integers(0, (11 if not (sus and asg) else 5) if profile != "huge" else 4)) == 0:
             if asg and (profile == "huge" or draw(st.booleans())):
                 k = draw(st.integers(0, len(asg) - 1))
-                f = draw(st.sampled_from(ASG_FAULTS if profile != "huge" else ["ram_over", "ram_over", "cpu_over"]))
+                f = draw(st.sampled_from((ASG_FAULTS if multi else ASG_FAULTS + ["two_ops"] * 5) if profile != "huge" else ["ram_over", "ram_over", "cpu_over"]))
                 if f in ("cpu_over", "ram_over") and len(asg) >= 2:
                     # the request that does not fit is a later one of a batch for the same pool: each request fits on
                     # its own, only the sum oversells
